@@ -14,6 +14,7 @@ import (
 type CaseStream struct {
 	Items []*Value `json:"items"`
 	Tail  HexBytes `json:"tail,omitempty"`
+	Reuse bool     `json:"reuse,omitempty"` // successive messages of one type are decoded into the same receiver object
 }
 
 func oracleC07(c *CaseStream) *Failure {
@@ -30,8 +31,16 @@ func oracleC07(c *CaseStream) *Failure {
 	buf.Write(c.Tail)
 	wire := append([]byte{}, buf.Bytes()...)
 	// ... are recovered by n successive decodes
+	receivers := map[string]any{}
 	for i, v := range c.Items {
 		obj := regByName[v.Type].New()
+		if c.Reuse {
+			if o, ok := receivers[v.Type]; ok {
+				obj = o
+			} else {
+				receivers[v.Type] = obj
+			}
+		}
 		err, pan, _ := safely(func() error { return DecodeAny(obj, buf) })
 		sig := "C07/" + v.Type
 		if pan != nil {
@@ -106,6 +115,16 @@ func init() {
 	registerReplay("c11", oracleC11)
 }
 
+func hasVariableParts(tn string) bool {
+	for _, f := range Types[tn].Fields {
+		switch f.Kind {
+		case "numlist", "fixtextlist", "textlist", "objlist", "obj", "objval", "dyn":
+			return true
+		}
+	}
+	return false
+}
+
 func frameOf(module string) string {
 	return map[string]string{"sse": "sse.SseBinary", "szse": "szse.SzseBinary", "bjse": "bjse.BjseBinary", "risk": "risk.RcBinary", "sample": "sample.RootPacket"}[module]
 }
@@ -147,6 +166,40 @@ func TestC07(t *testing.T) {
 				Col.Program(tn)
 				if nt && Col.WantSample("single+tail") && size < 200 {
 					Col.Sample("single+tail", c)
+				}
+				return c
+			}, oracleC07)
+		})
+	}
+	// (i-b) every type: a short stream of messages of that one type, decoded one after another into ONE receiver
+	for _, tn := range MyTypes() {
+		tn := tn
+		if !hasVariableParts(tn) {
+			continue // a flat message has nothing a used receiver could keep (C15 covers plain field leftovers)
+		}
+		t.Run("reuse/"+tn, func(t *testing.T) {
+			CheckProp(t, "C07", "c07", "reuse/"+tn, func(rt *rapid.T) *CaseStream {
+				n := rapid.IntRange(2, 5).Draw(rt, "n")
+				c := &CaseStream{Reuse: true}
+				kinds := map[string]bool{}
+				for i := 0; i < n; i++ {
+					v, _ := GenValue(rt, tn, smallOpts())
+					c.Items = append(c.Items, v)
+					if di := Types[tn].DynIndex(); di >= 0 && v.F[di].O != nil {
+						kinds[v.F[di].O.Type] = true
+					}
+				}
+				if rapid.Bool().Draw(rt, "hastail") {
+					c.Tail = rapid.SliceOfN(rapid.Byte(), 1, 16).Draw(rt, "tail")
+				}
+				cls := []string{"same-type-stream-reused-receiver"}
+				if len(kinds) >= 2 {
+					cls = append(cls, "reused-receiver-changes-part-type")
+				}
+				Col.Case(Hash64(JSONOf(c)), true, cls...)
+				Col.Program(tn)
+				if len(kinds) >= 2 && Col.WantSample("reuse") && len(JSONOf(c)) < 4000 {
+					Col.Sample("reuse", c)
 				}
 				return c
 			}, oracleC07)
